@@ -22,7 +22,7 @@ from bind import c15
 
 PROP = "C02"
 
-MAIN_GROUPS = ["core", "core2", "defnames", "targets", "comp", "calls", "decoys"]
+MAIN_GROUPS = ["core", "core2", "defnames", "targets", "comp", "calls", "decoys", "modules"]
 FEATURE_GROUPS = ["params", "stmts", "walrus", "lambda"]
 
 _ROOT = None
@@ -40,32 +40,70 @@ def _project():
     return _PROJECT
 
 
-def ask(src, offsets):
-    """{query offset: sorted offsets | {"error": ..}}"""
+_COUNTER = [0]
+
+
+def open_project(r):
+    """a rope project holding the rendered program.  The one-module case reuses one
+    project per worker (mod.py is rewritten through rope); a multi-module program gets
+    a project of its own.  Returns (project, close)"""
+    if r.lib_path is None:
+        project = _project()
+        res = project.get_file("mod.py")
+        if not res.exists():
+            res.create()
+        if res.read() != r.src:
+            res.write(r.src)
+        return project, (lambda: None)
+    common.use_repo()
+    from rope.base import project as project_mod
+    _COUNTER[0] += 1
+    root = os.path.join(_ROOT, "w%d" % os.getpid(), "m%d" % _COUNTER[0])
+    top = root
+    prefs = {}
+    if r.outside:
+        root = os.path.join(top, "proj")
+        prefs["python_path"] = [os.path.join(top, "outside")]
+    for base, fs in ((root, r.files), (os.path.join(top, "outside"), r.outside)):
+        for rel, text in fs.items():
+            full = os.path.join(base, rel)
+            os.makedirs(os.path.dirname(full), exist_ok=True)
+            with open(full, "w") as f:
+                f.write(text)
+    project = project_mod.Project(root, ropefolder=None, **prefs)
+
+    def close():
+        project.close()
+        common.rmtree(top)
+    return project, close
+
+
+def ask(r, places):
+    """{(path, offset): sorted [(path, offset)] | {"error": ..}}"""
     from rope.contrib import findit
     from rope.base import exceptions
-    project = _project()
-    res = project.get_file("mod.py")
-    if not res.exists():
-        res.create()
-    res.write(src)
+    project, close = open_project(r)
     out = {}
-    for off in offsets:
-        try:
-            locs = findit.find_occurrences(project, res, off)
-            out[off] = sorted(l.offset for l in locs if l.resource == res)
-            if any(l.resource != res for l in locs):
-                out[off] = {"error": "location in another resource"}
-        except exceptions.RopeError as e:
-            out[off] = {"error": type(e).__name__, "rope": True, "msg": str(e)[:120]}
-        except Exception as e:  # noqa
-            out[off] = {"error": type(e).__name__, "rope": False, "msg": str(e)[:120]}
+    try:
+        for (path, off) in places:
+            res = project.get_file(path)
+            try:
+                locs = findit.find_occurrences(project, res, off)
+                out[(path, off)] = sorted((l.resource.path, l.offset) for l in locs)
+            except exceptions.RopeError as e:
+                out[(path, off)] = {"error": type(e).__name__, "rope": True, "msg": str(e)[:120]}
+            except Exception as e:  # noqa
+                out[(path, off)] = {"error": type(e).__name__, "rope": False, "msg": str(e)[:120]}
+    finally:
+        close()
     return out
 
 
 def token_scope(prog, e):
     """the scope from which the token of event e is resolved (data from the export:
     the event's scope, except operations the spec resolves elsewhere)"""
+    if e["s"] == 0:
+        return 1
     if e["op"] in ("iteruse", "defuse"):
         return prog.parent(e["s"])
     if e["op"] == "walrus" and prog.kind(e["s"]) == "comp":
@@ -79,6 +117,9 @@ def token_scope(prog, e):
 def causes_for(prog, q, t):
     """shrunk causes of a deviation between query token q and token t (one failure is
     recorded per cause; see c15._split for bindings rope does not see at all)"""
+    if q.get("lc") or t.get("lc") or q["s"] == 0 or t["s"] == 0:
+        # a name of the second module and its aliases
+        return ["lib-name"]
     for e in (q, t):
         c = e["k"]
         if e["op"] == "defname" and prog.kind(c) == "class" and (
@@ -125,15 +166,16 @@ FEATURE_OPS = ("posonly", "kwonly", "aug", "del", "matchcap", "walrus-in-comp")
 
 def compare(prog, r, answers):
     fails = []
-    offs = r.offsets()
+    offs = r.places()
     classes = prog.classes()
     by_off = {offs[ps.ev_key(e)]: e for e in prog.events if ps.ev_key(e) in offs}
 
     def fail(clause, obs, q, t, detail):
         for c in causes_for(prog, q, t):
             fails.append(({"clause": clause, "obs": obs, "cause": c, "query": q["op"], "token": t["op"]}, detail))
-    for (b, n), members in sorted(classes.items()):
-        want = sorted(offs[ps.ev_key(e)] for e in members)
+    for (b, n), members in sorted(classes.items(), key=lambda kv: (str(kv[0][0]), kv[0][1])):
+        members = [e for e in members if not offs[ps.ev_key(e)][0].startswith("<outside>/")]
+        want = sorted(offs[ps.ev_key(e)] for e in members)      # tokens inside the project
         seen = {}
         for q in members:
             got = answers[offs[ps.ev_key(q)]]
@@ -147,24 +189,39 @@ def compare(prog, r, answers):
                     t = by_off[off]
                     fail("missing", "self" if t is q else "other", q, t,
                          "asked at %s: token %s of the same binding (scope %d) is not reported" % (
-                             ps.ev_key(q), ps.ev_key(t), b))
+                             ps.ev_key(q), ps.ev_key(t), -1 if b == "lib" else b))
             for off in got:
                 if off not in want:
                     t = by_off.get(off)
                     if t is None:
-                        fails.append(({"clause": "extra", "obs": "not-a-token", "cause": "offset %d" % off},
-                                      "asked at %s: reported offset %d is not a name token" % (ps.ev_key(q), off)))
+                        fails.append(({"clause": "extra", "obs": "not-a-token", "cause": "place %s:%d" % off},
+                                      "asked at %s: reported place %s is not a name token" % (ps.ev_key(q), off)))
                     elif t["op"] in ps.DECOYS:
                         fails.append(({"clause": "extra", "obs": "decoy", "cause": t["op"]},
                                       "asked at %s: the %s is reported" % (ps.ev_key(q), t["op"])))
                     else:
                         fail("extra", "other-binding" if t["b"] else "undetermined", q, t,
-                             "asked at %s (binding of scope %d): token %s of binding %s is reported" % (
-                                 ps.ev_key(q), b, ps.ev_key(t), t["b"]))
+                             "asked at %s (binding %s): token %s of binding %s is reported" % (
+                                 ps.ev_key(q), b, ps.ev_key(t), "lib" if t.get("lc") else t["b"]))
         if len(seen) > 1:
             qs = [seen[k] for k in sorted(seen)]
             fail("query-dependent", "", qs[0], qs[-1],
                  "members %s of one binding give different answers" % (sorted(ps.ev_key(q) for q in qs),))
+    # the second module itself: every token naming it is one class
+    mods = r.module_places()
+    for place in mods:
+        got = answers[place]
+        cause = "layout:%s" % prog.lib
+        if prog.lib != "relative" and any(e["op"] == "asattr" and e["s"] != 1 for e in prog.events):
+            # `import lb as m` inside a def: the statement is indented
+            cause = "aliased-import-in-indented-block"
+        key = {"clause": "module-name", "cause": cause}
+        if isinstance(got, dict):
+            fails.append((dict(key, obs="error:" + got["error"]),
+                          "find_occurrences at module token %s raised %s" % (place, got["error"])))
+        elif got != mods:
+            fails.append((dict(key, obs="missing" if set(got) < set(mods) else "extra" if set(got) > set(mods) else "both"),
+                          "asked at module token %s: reported %s, tokens naming the module are %s" % (place, got, mods)))
     return fails
 
 
@@ -176,10 +233,10 @@ def run_case(item):
         ps.cpython_check(prog, r)
     except ps.SpecMismatch as e:
         return {"machinery": "spec vs CPython: %s\n%s\n%s" % (e, ps.describe(prog), r.src)}
-    offs = r.offsets()
-    queries = sorted(offs[ps.ev_key(e)] for e in prog.events
-                     if e["b"] != 0 and e["op"] not in ps.DECOYS)
-    answers = ask(r.src, queries)
+    offs = r.places()
+    queries = sorted({offs[ps.ev_key(e)] for e in prog.events if e["det"]
+                      and not offs[ps.ev_key(e)][0].startswith("<outside>/")} | set(r.module_places()))
+    answers = ask(r, queries)
     fails = compare(prog, r, answers)
     nonempty = sum(1 for v in answers.values() if isinstance(v, list) and len(v) >= 2)
     out = {"group": group, "fails": [], "queries": len(queries), "classes": len(prog.classes()),
@@ -189,12 +246,13 @@ def run_case(item):
         out["program"] = ps.describe(prog)
         out["src"] = r.src
         out["rec"] = rec
-        out["answers"] = {str(k): v for k, v in answers.items()}
-        out["tokens"] = {"%s" % (k,): v for k, v in offs.items()}
+        out["answers"] = {"%s:%d" % k: v for k, v in answers.items()}
+        out["tokens"] = {"%s" % (k,): "%s:%d" % v for k, v in offs.items()}
+        out["files"] = r.files
     elif rec.get("_sample") and queries:
-        cl = {"%s@scope%d" % (n, b): sorted(offs[ps.ev_key(e)] for e in m) for (b, n), m in prog.classes().items()}
-        out["sample"] = {"program": ps.describe(prog), "source": r.src, "spec_classes_offsets": cl,
-                         "rope_answers": {str(k): v for k, v in answers.items()}}
+        cl = {"%s@%s" % (n, b): sorted("%s:%d" % offs[ps.ev_key(e)] for e in m) for (b, n), m in prog.classes().items()}
+        out["sample"] = {"program": ps.describe(prog), "files": r.files, "spec_classes": cl,
+                         "rope_answers": {"%s:%d" % k: v for k, v in answers.items()}}
     return out
 
 
@@ -208,8 +266,12 @@ def main(tier):
     tlc_stats = {}
     items = []
     states = transitions = 0
-    runs = ps.run_groups(groups, tier, coverage=(tier == "quick"),
+    # the partition invariants are costly for TLC (every token's class is recomputed from
+    # every member); the quick tier checks them on the smaller groups only
+    full = groups if tier == "thorough" else ["core2", "defnames", "calls", "decoys", "modules", "params"]
+    runs = ps.run_groups([g for g in groups if g in full], tier, coverage=(tier == "quick"),
                          invariants=["TypeOK", "QueryInvariant", "OccPartition"], properties=[])
+    runs.update(ps.run_groups([g for g in groups if g not in full], tier, invariants=["TypeOK"], properties=[]))
     for g in groups:
         res, progs = runs[g]
         tlc_stats[g] = dict(res.summary(), programs=len(progs))
@@ -227,7 +289,7 @@ def main(tier):
                     verdict.machinery_failure("action %s never taken" % a)
         states += res.distinct
         transitions += res.generated
-        progs = [p for p in progs if any(e["b"] != 0 for e in p["ev"])]      # something to ask about
+        progs = [p for p in progs if any(e["det"] for e in p["ev"])]      # something to ask about
         progs.sort(key=lambda x: json.dumps(x, sort_keys=True))
         if tier == "quick" and len(progs) > per_group_quick:
             progs = rnd.sample(progs, per_group_quick)
@@ -235,6 +297,7 @@ def main(tier):
             if k % 499 == 7:
                 p["_sample"] = True
             items.append((g, p))
+    print("TLC done after %.0f s; replaying %d items" % (timer.s(), len(items)))
     _ROOT = common.scratch("c02_")
     replayed = queries = multi = nontrivial = 0
     by_group = {}
@@ -263,7 +326,7 @@ def main(tier):
                     continue
                 seen.add(ks)
                 verdict.failure(f["key"], {"property": PROP, "key": f["key"], "detail": f["detail"],
-                                           "program": r["program"], "source": r["src"], "spec": r["rec"],
+                                           "program": r["program"], "files": r["files"], "spec": r["rec"],
                                            "token_offsets": r["tokens"], "rope_answers": r["answers"]})
     finally:
         common.rmtree(_ROOT)
